@@ -98,16 +98,6 @@ func main() {
 		os.Exit(1)
 	}
 	progs = append(progs, p0)
-	if *tier == "thorough" {
-		p1, err := LoadProgram(abs, "386", nil)
-		if err != nil {
-			fmt.Printf("UNDECIDED property=%s: cannot load GOARCH=386 configuration: %v\n", prop.ID, err)
-			fmt.Printf("VIOLATION property=%s replay=%s\n", prop.ID, "evidence/replay/"+prop.ID+"-load.json")
-			os.Exit(1)
-		}
-		progs = append(progs, p1)
-	}
-
 	if only == nil {
 		old, _ := filepath.Glob(filepath.Join(*evDir, "replay", prop.ID+"-*.json"))
 		for _, o := range old {
